@@ -21,7 +21,9 @@ type Det struct {
 	Next      map[string]int // "<kind>:<status>" -> destination
 	TimerSec  int
 	FailFirst int
-	attempts  map[string]int
+	// AlwaysFail: function kinds ("step", "timeout") that fail with the same error on every invocation (C13 suites)
+	AlwaysFail map[string]bool
+	attempts   map[string]int
 }
 
 type detCtx struct {
@@ -42,7 +44,7 @@ func (d *Det) outcome(c detCtx) string {
 	}
 	key := fmt.Sprintf("%s:%d:%d", c.kind, c.status, c.run)
 	d.attempts[key]++
-	if d.attempts[key] <= d.FailFirst {
+	if d.attempts[key] <= d.FailFirst || d.AlwaysFail[c.kind] {
 		return "e:1"
 	}
 	return fmt.Sprintf("r:%d:%d", d.Next[c.kind+":"+strconv.Itoa(c.status)], detObj(c.objN, c.status))
